@@ -11,9 +11,16 @@ Definition cut_eqb (a b : cut) : bool :=
   end.
 Definition rce_eqb (a b : rce) : bool := cut_eqb (lo a) (lo b) && cut_eqb (hi a) (hi b).
 
+Definition range_eqb : range -> range -> bool := list_eqb rce_eqb.
+Inductive case : Type :=
 (* number of index columns, calls applied to the builder, ranges observed from Ranges() *)
-Definition case : Type := (nat * list bop * list range)%type.
+| CB (k : nat) (ops : list bop) (obs : list range)
+(* keys of a lone IN filter on the INT column, result of the fast path: None = nil *)
+| CIn (ls : list lit) (obs : option (list range)).
 Definition ok (c : case) : bool :=
-  let '(k, ops, obs) := c in list_eqb (list_eqb rce_eqb) (mresult (mrun k ops)) obs.
+  match c with
+  | CB k ops obs => list_eqb range_eqb (mresult (mrun k ops)) obs
+  | CIn ls obs => option_eqb (list_eqb range_eqb) (in_fast ls) obs
+  end.
 Definition mismatches (cs : list (N * case)) : list N :=
   map fst (filter (fun p => negb (ok (snd p))) cs).
